@@ -118,7 +118,8 @@ CHECKS = {
         text="Bounded symbolic model checking, one inductive step from an arbitrary state: for trees of depth <=2 whose members share the "
         "collection's path length, every operation on the root or an inner collection keeps each descendant's pose in the collection "
         "frame at every new path index (compared with the old index it derives from), for all real poses and arguments; operating on a "
-        "child alone leaves all other objects term-identical.",
+        "child alone leaves all other objects term-identical. Anchors include the .position array of the rotated collection itself / of its first "
+        "child (aliasing). Every scenario is also run once with committed pseudo-random doubles through the unpatched library (model validation).",
         note="Real arithmetic, unit quaternions, rotations up to quaternion sign; N<=2 (quick) / 3 (thorough); start values and input lengths from stated lists.",
         design="3/C10",
     ),
@@ -129,7 +130,8 @@ CHECKS = {
         text="Bounded symbolic model checking of the tree invariant (single parent, parent/children agreement with multiplicity one, acyclic, typed "
         "views and *_all flattenings): every condition is 'Confirmed over all paths' by CrossHair for all valid pre-states over the universe and "
         "all argument/flag combinations, including argument lists rejected part-way.",
-        note="Universe of 4 (quick) / 5 (thorough) concrete objects, <=2 arguments per call; validity of the pre-state is the invariant itself.",
+        note="Universe of 4 (quick) / 5 (thorough) concrete objects, <=2 arguments per call, plus (both tiers) a depth-3 universe T>M>L + Sensor with "
+        "one-argument operations and copy(**rejected kwargs); validity of the pre-state is the invariant itself.",
         design="3/C11",
     ),
     "C17": dict(
@@ -176,13 +178,18 @@ CHECKS = {
         engine="E2",
         technique="symbolic execution of the real fix_trimesh_orientation / get_inwards_mask / is_facet_inwards / mask_inside_trimesh / "
         "lines_end_in_trimesh on meshes V = s*V0 + t with symbolic size s in [1e-9,1e9] and placement t; the returned face list is concrete per "
-        "path and checked exactly; the solver decides which paths (sizes/placements) are feasible",
-        text="Bounded symbolic model checking: for rational base meshes (tetrahedron, sliver, prism, cube) under committed face orders and flip "
-        "subsets, every feasible path of the reorientation returns only outward faces for ALL sizes and placements - exactly the fixed "
-        "tolerances named in the property (they were absolute and inverted all faces of small meshes: found, reproduced, fixed).",
-        note="Real arithmetic; orientation normalisation only: check_open / check_disconnected (index combinatorics) and check_selfintersecting "
-        "(float32 + KDTree) are not decided; face orders / flip subsets from a stated finite list; paths whose feasibility the solver cannot "
-        "decide are explored anyway and listed as inconclusive if they return inward faces.",
+        "path and checked exactly; the solver decides which paths (sizes/placements) are feasible; get_intersecting_triangles / "
+        "segments_intersect_facets on two-part meshes with a symbolic interpenetration depth d (scipy KDTree cut: every pair is a candidate)",
+        text="Bounded symbolic model checking: for rational base meshes (tetrahedron, sliver, prism, cube, two disjoint tetrahedra) under committed "
+        "face orders and flip subsets, every feasible path of the reorientation returns only outward faces for ALL sizes and placements - exactly "
+        "the fixed tolerances named in the property (they were absolute and inverted all faces of small meshes: found, reproduced, fixed). "
+        "Self-intersection: for a spike pushed through a face and for a shifted copy standing on the same plane, every feasible path reports an "
+        "intersection iff the geometric truth in d holds, for B-first / A-first / interleaved face orders (found, reproduced, fixed: crossings "
+        "exactly through a triangle edge were missed).",
+        note="Real arithmetic (float32 cast = identity); check_open / check_disconnected (index combinatorics) are not decided; the adequacy of the "
+        "KDTree search radius is outside the claim; face orders / flip subsets / two-part families from a stated finite list; touching "
+        "configurations excluded by 1e-5 bands; paths whose feasibility the solver cannot decide are explored anyway and listed as inconclusive "
+        "if they return inward faces.",
         design="3/C16",
     ),
     "C13": dict(
@@ -220,23 +227,29 @@ CHECKS = {
         text="Bounded symbolic model checking of the dictionary/precedence mechanism: update semantics (last wins, same_keys_only, replace_None_only, "
         "input not modified), magic<->nested<->flat round trips, equivalence of the three notations, last assignment wins, leaf precedence "
         "show-kwarg > object > family default / base default for three representative numeric leaves, and that resolving a style changes neither "
-        "the object's style nor the defaults; out-of-range values are rejected.",
-        note="PARTLY APPLICABLE: <=3 keys from a 4-name alphabet, depth <=3, value lists of 3-4 entries; the sweep over all leaves/families, aliases "
-        "(e.g. magnetization.size), colour/linestyle validators, defaults.reset() for every leaf and independence of copies are NOT decided. "
-        "Conditions CrossHair cannot finish within the per-condition budget are listed as inconclusive.",
+        "the object's style nor the defaults; out-of-range values are rejected; a leaf in both families of a Triangle resolves object > triangle > "
+        "magnet; the resolved style of a show() call is installed only while traces are built (also when that raises); for committed lists of "
+        "11 default leaves and 6 magnet-style leaves (incl. magnetization.arrow.size with its deprecated alias): reset() restores the leaf and "
+        "leaves the others alone, the second of two assignments in any two notations wins, a value set on one object shows on no other object "
+        "and not in the defaults, copies are independent (found, reproduced, fixed: the alias undid arrow.size updates and reset).",
+        note="PARTLY APPLICABLE: <=3 keys from a 4-name alphabet, depth <=3, value lists of 2-4 entries chosen by symbolic selectors; the sweep over all "
+        "several hundred leaves/families and the colour/linestyle validators are NOT decided. Conditions CrossHair cannot finish within the "
+        "per-condition budget are listed as inconclusive.",
         design="3/C20",
     ),
     "C19": dict(
         engine="E1+E2",
         technique="symbolic execution of the real place_and_orient_model3d and of the local model builders (make_Cuboid / Prism / Ellipsoid / "
         "CylinderSegment / Tetrahedron, make_Polyline / make_Circle) over z3 terms with symbolic dimensions, pose, scale and length factor; "
-        "on-surface and full-extent conditions as SMT obligations; CrossHair on get_rot_pos_from_path (which path indices are drawn: clamped to the last pose)",
+        "on-surface and full-extent conditions as SMT obligations; CrossHair on get_rot_pos_from_path (which path indices are drawn: clamped to the last pose), "
+        "style_temp_edit (own style restored whether the drawing returns or raises) and process_animation_kwargs (global animation defaults untouched)",
         text="Bounded symbolic model checking of the geometric core of show(): for all real dimensions and poses every drawn vertex equals "
         "(q*v*scale + p)*length_factor, lies on the surface of the body it depicts (corner of the box, hull circle and base planes, ellipsoid "
         "equation, inner/outer radius at z=+-h/2, the given tetrahedron vertices) and the full extent is attained; current lines pass through "
         "the conductor's points.",
-        note="PARTLY APPLICABLE: discretisation parameters and section angles concrete; the show() pipeline (frame selection, animation, "
-        "get_generic_traces3D, back ends), glyphs, colouring, axis unit and 'displaying never modifies objects/styles/defaults' are NOT decided.",
+        note="PARTLY APPLICABLE: discretisation parameters and section angles concrete; get_generic_traces3D, the plotly / matplotlib back ends, "
+        "glyphs, colouring and the axis unit are NOT decided; 'displaying never modifies' is decided for the style swap and the animation "
+        "defaults only.",
         design="3/C19",
     ),
 }
